@@ -94,6 +94,7 @@ def handle : List Sx → Sx
         Sx.ok (.list [S out, Sx.ofBool (shapeOK out)])
     | _, _, _, _ => Sx.bad
   | [.atom "attrs", .str s] => Sx.ok (Sx.ofBool (attrsOK s.toList))
+  | [.atom "attrs-strict", .str s] => Sx.ok (Sx.ofBool (attrsStrictOK s.toList))
   | [.atom "shape", .str s] => Sx.ok (Sx.ofBool (shapeOK s.toList))
   | [.atom "valid-scheme", .str s, .str wordchars] =>
     Sx.ok (Sx.ofBool (validScheme (fun c => wordchars.toList.contains c) s.toList))
